@@ -1,2 +1,58 @@
-(* C02 — statements to come *)
-Require Import RV.Model.Server.
+(* C02 — every server response verifies under an independent spec-derived verifier.
+   Statements only. PARTIAL: the *rate* of fault-injected replies is a property of the PRNG
+   (SmallRng / Bernoulli) and is measured by the correspondence run, not proved. *)
+Require Import RV.Model.Bytes RV.Gen.Tables RV.Model.Message RV.Model.Merkle RV.Model.Keys RV.Model.Server
+        RV.Spec.MerkleGoals RV.Spec.RefVerify RV.Spec.ServerGoals.
+Require Import RV.Proofs.ReplyFacts RV.Proofs.ServerCorollaries.
+Local Open Scope N_scope.
+
+(* With fault injection off the server emits exactly spec_batch_sent (C09_drain); every such
+   datagram goes to an accepted request's source and is accepted by the independent verifier
+   (framing, reference decoding, nonce echo, certificate under the long-term key with the
+   protocol's delegation context, SREP under the delegated key, VER inside SREP for IETF,
+   midpoint in the window, index/path consistent with the batch, Merkle recomputation with the
+   protocol's own width and leaf), and is no longer than that request. Relative to
+   SigCorrect (verify accepts what sign produced) and the lengths of the primitives' outputs. *)
+Theorem C02_honest_verifies :
+  forall H ed_pk ed_sign ed_verify srv lt oi oc now ds e,
+    HashLen H -> PkLen ed_pk -> SigLen ed_sign -> SigCorrect ed_pk ed_sign ed_verify ->
+    (length ds <= 64)%nat -> fst now < two64 ->
+    In e (spec_batch_sent H ed_pk ed_sign srv lt oi oc now ds) ->
+    exists v r, In r (accepted srv v ds)
+      /\ em_dest e = req_src r
+      /\ wellformed srv (req_dgram r) = Some (req_nonce r, v)
+      /\ verify_response H ed_verify v (ed_pk lt) (req_dgram r) (em_bytes e) = true
+      /\ (length (em_bytes e) <= length (req_dgram r))%nat.
+Proof. exact batch_emission. Qed.
+Print Assumptions C02_honest_verifies.
+
+(* the general form: any batch of up to 2^32 requests, any position *)
+Theorem C02_reply_verifies :
+  forall H ed_pk ed_sign ed_verify,
+    HashLen H -> PkLen ed_pk -> SigLen ed_sign -> SigCorrect ed_pk ed_sign ed_verify ->
+    forall v srv lt ok now ds i,
+      let reqs := accepted srv v ds in
+      (i < length reqs)%nat -> N.of_nat (length reqs) <= 4294967296 -> fst now < two64 ->
+      verify_response H ed_verify v (ed_pk lt) (req_dgram (nth i reqs req0))
+                      (reply_bytes H ed_pk ed_sign v lt ok now reqs i) = true.
+Proof. exact reply_verifies. Qed.
+Print Assumptions C02_reply_verifies.
+
+(* fault injection: for EVERY PRNG outcome a greased reply is either unchanged or rejected
+   outright by the independent verifier — never a reply that verifies but says something else *)
+Theorem C02_grease_dichotomy :
+  forall H ed_pk ed_sign ed_verify, PkLen ed_pk -> SigLen ed_sign ->
+    forall v pk request srv lt ok now ds i fault c m' bs,
+      let reqs := accepted srv v ds in
+      N.of_nat (length reqs) <= 4294967296 ->
+      grease fault c (reply_msg H ed_pk ed_sign v lt ok now reqs i) = Ok m' ->
+      (match v with Google => encode m' | RfcDraft13 => encode_framed m' end) = Ok bs ->
+      m' = reply_msg H ed_pk ed_sign v lt ok now reqs i
+      \/ verify_response H ed_verify v pk request bs = false.
+Proof. exact grease_dichotomy. Qed.
+Print Assumptions C02_grease_dichotomy.
+
+(* with fault_percentage = 0 grease is the identity whatever the PRNG says *)
+Theorem C02_grease_off : forall c m, grease 0 c m = Ok m.
+Proof. reflexivity. Qed.
+Print Assumptions C02_grease_off.
